@@ -305,6 +305,36 @@ pub fn c03(cx: &Ctx, rep: &mut Report) {
                 }
             }
         }
+        // far beyond the FIPS 204 Appendix-C figure (814 iterations): the accepted ML-DSA-44 key whose t0 coefficients all have
+        // maximal magnitude with pseudo-random signs needs thousands of attempts; the signature is still the reference's
+        if p.id == 44 {
+            let hb = refmodel::keygen_internal(p, &[0x21u8; 32]);
+            let hkb = crate::checks_d::hostile_t0_key(p, &hb);
+            let hkc = SkCtx::new(p, &hkb);
+            if let Ok(Ok(hsk)) = (api.sk_from_bytes)(&hkb) {
+                for m in ["kappa-overflow-0", "kappa-overflow-1"] {
+                    let mp = refmodel::format_message(Mode::Pure, m.as_bytes(), b"").unwrap();
+                    let (want, info) = refmodel::sign_internal_ctx(&hkc, &mp, &[0u8; 32], &refmodel::SignOpts { max_iters: 16384, ..Default::default() });
+                    let Some(want) = want else {
+                        rep.caps_hit.push(format!("ML-DSA-44 hostile-t0 key, message {m}: the reference did not finish within 16384 attempts"));
+                        continue;
+                    };
+                    rep.count("model_selected:iterations>814", 1);
+                    rep.extra.insert(format!("hostile_t0_key_iterations:{m}"), json!(info.iterations));
+                    rep.nontrivial_case(fnv(m.as_bytes()));
+                    let mut rng = ScriptRng::ok(&[0u8; 32]);
+                    let pr = Probe { mode: Mode::Pure, msg: m.as_bytes().to_vec(), ctx: vec![], rnd: [0u8; 32] };
+                    match hsk.sign(Mode::Pure, &mut rng, m.as_bytes(), b"") {
+                        Ok(Ok(s)) if s == want => {}
+                        other => rep.violate(Violation {
+                            key: "c03:iterations>814".into(),
+                            summary: format!("ML-DSA-44: signature differs from the reference for an accepted private key and message whose rejection loop runs {} iterations (> 814): {:?}", info.iterations, other.map(|r| r.map(|_| "different bytes"))),
+                            replay: json!({"engine":"api","set":p.id,"ops":[{"op":"sk_from_bytes","sk":hex(&hkb)},{"op":"sign","probe":pr.json_full(),"expect":hex(&want)}]}),
+                        }),
+                    }
+                }
+            }
+        }
         // an attempt rejected with ||c t0|| EXACTLY gamma2 (only reachable for ML-DSA-44, where tau*2^12 > gamma2): the valid
         // key whose every t0 coefficient is gamma2/32 = 2976 makes c*t0 a multiple of 2976, so the boundary is hit when the
         // largest partial sum of the challenge's signs is exactly 32
@@ -517,7 +547,21 @@ pub fn rare_keygen_seeds(p: &'static Params, _verif_seed: u64, cap: u64) -> Vec<
         known = names.iter().zip(found.iter()).filter_map(|(n, f)| f.map(|i| (n.to_string(), hex(&alpha::counter32(0, "rarekg", i))))).collect();
         let _ = std::fs::write(&path, serde_json::to_string_pretty(&json!({"set": p.id, "searched": base, "how": "first counter seed (tag rarekg) whose reference KeyGen_internal shows the event", "seeds": known})).unwrap());
     }
-    known.into_iter().map(|(n, h)| (n, refmodel::unhex(&h).try_into().unwrap())).collect()
+    let mut out: Vec<(String, [u8; 32])> = known.into_iter().map(|(n, h)| (n, refmodel::unhex(&h).try_into().unwrap())).collect();
+    // committed result of `mc raresearch expands` (8e7 reference ExpandS runs): seeds for which one RejBoundedPoly call
+    // consumes the most SHAKE256 output (eta = 4: 288..294 bytes, i.e. deep into the third block)
+    if let Ok(text) = std::fs::read_to_string(format!("{}/witnesses/expand_s_long.json", crate::report::verif_root())) {
+        if let Ok(v) = serde_json::from_str::<serde_json::Value>(&text) {
+            for w in v["witnesses"].as_array().cloned().unwrap_or_default() {
+                if w["set"].as_u64() == Some(p.id as u64) {
+                    if let Ok(xi) = <[u8; 32]>::try_from(refmodel::unhex(w["seed"].as_str().unwrap_or(""))) {
+                        out.push((format!("ExpandS_polynomial_consumes_{}_bytes", w["bytes"]), xi));
+                    }
+                }
+            }
+        }
+    }
+    out
 }
 pub fn rare_cap(tier: Tier) -> u64 { tier.pick(262_144, 1_048_576) }
 
